@@ -78,7 +78,9 @@ CHECKS = {
               "requested from the allocator <= 64 KiB + 1024 x input length, every strict prefix rejected. distinct_nontrivial = "
               "distinct (protocol, type, bytes) fault inputs. Generated-code level (every generated type of the semantic corpus, "
               "retention off/on): seeds = a rich value, a minimal value and the rich value with every string/binary stretched to 40 "
-              "[300, 5000] bytes; the same truncations, annotated overwrites and bit flips; sync and async decode; recursive types "
+              "[300, 5000] bytes; the same truncations, annotated overwrites and bit flips (for encodings longer than 1500 bytes: every "
+              "truncation within the first and last 256 bytes and around every annotated position plus every (len/512)th, flips "
+              "within the first and last 128 bytes and at annotated positions); sync and async decode; recursive types "
               "nested up to the depth at which the worker dies (recorded finding)."),
         assumptions=["the allocator window includes the harness's own Val tree (<= ~100 bytes per input byte), which the budget "
                      "covers", "async readers are driven with the deliver-everything schedule here; schedules are C12's subject"],
